@@ -12,7 +12,7 @@ import (
 // C14: function call protocol. Every occurrence of a function in a path uses its own alias
 // (f1, g2, ...), so the recorded call log can be compared per occurrence.
 
-var c14Base = []string{"f", "id", "e", "g", "cnt", "eg"}
+var c14Base = []string{"f", "id", "e", "g", "cnt", "eg", "gre"}
 
 // funcSeqs lists all sequences of 1..maxLen functions; the k-th function carries suffix k.
 func funcSeqs(maxLen int) [][]string {
@@ -96,7 +96,7 @@ func (u c14Unit) paths() []*gen.Path {
 func newC14(tier string) run.Job {
 	j := &c14Job{env: impl.NewEnv(), ds: newDocSet(stdDocSpec(tier), []int{modeFloat})}
 	mid := gen.SigmaMid()
-	d2, d3 := 2, 1
+	d2, d3 := 2, 0
 	if tier == "thorough" {
 		d2, d3 = 3, 2
 	}
@@ -223,11 +223,11 @@ func init() {
 		Level: "model_checking",
 		Rule:  "every (path with 1..3 functions, document); every function occurrence has its own alias so the recorded log is compared per occurrence (function, argument, order, count); non-trivial = the model calls at least one function",
 		Assumptions: []string{
-			"functions: f doubles numbers and fails otherwise, id, e always fails; aggregates g (returns its list), cnt, eg always fails",
+			"functions: f doubles numbers and fails otherwise, id, e always fails; aggregates g (returns its list), cnt, eg always fails, gre (re-entrant: performs two retrievals of its own before copying its argument list)",
 			"inside filters only single-atom filters are used, so short-circuit evaluation of && / || cannot hide a call; the relative order of calls of different occurrences is not compared (the property does not fix it)",
 		},
 		Bounds: map[string]string{
-			"quick":    "navigation prefixes of <=2 steps over the 16-step alphabet followed by every sequence of 1..2 functions (1..3 after <=1 step) out of 6; function chains of 1..2 inside filter operands (9 operand paths x 3 filter forms) after 5 prefixes; every document of <=4 nodes",
+			"quick":    "navigation prefixes of <=2 steps over the 16-step alphabet followed by every sequence of 1..2 functions (1..3 directly after $) out of 7; function chains of 1..2 inside filter operands (9 operand paths x 3 filter forms) after 5 prefixes; every document of <=4 nodes",
 			"thorough": "prefixes of <=2 steps with 1..3 functions, 3 steps with one function; operand chains as in quick; every document of <=5 nodes",
 		},
 		New: newC14,
